@@ -224,6 +224,7 @@ def cases(draw: Any, prop: str, tier: str) -> dict:
                 pos = d.int(0, len(script))
                 script.insert(pos, {"op": "fail", "exc": f["exc"]})
             case["fault"] = f
+            case["fault_timeout"] = d.weighted([(10**6, 60), (None, 40)])  # with and without the startup watchdog
         elif mode == "timeout":
             case["timeout_delta"] = d.pick([-3, -2, -1, 1, 2, 5])
         else:
@@ -876,7 +877,7 @@ def run_case(case: dict, prop: str) -> Outcome:
         else:
             j.waits(r)
     elif mode == "fault":
-        r = _execute(case, 10**6)
+        r = _execute(case, case.get("fault_timeout", 10**6))
         j.fault(r)
         j.ownership(r)
     elif mode == "timeout":
